@@ -78,6 +78,25 @@ def run(ctx):
             if rng.random() < 0.7:
                 p["max"] = 1
             ps.append(p)
+        # failure return paths of the cores: a box that is only a few ulps wide in one coordinate (lb != ub, so the coordinate is
+        # NOT eliminated) with the DEFAULT initial step — degenerate simplices, zero trust regions, roundoff exits; whatever code comes
+        # back, the object must report the settings it reported before (an unset initial step stays unset)
+        import math
+        for nm in problems.ALL:
+            for rep in range(4 if ctx.thorough else 2):
+                n = rng.choice([2, 3])
+                p = problems.gen_problem(rng, A, alg_name=nm, n=n, box="finite", with_constraints=False, maxeval=rng.choice([40, 200]))
+                for k in ("dx", "maxtime", "clockq", "clock0", "inj", "stopval"):
+                    p.pop(k, None)
+                i = rng.randrange(n)
+                lo = rng.choice([1.0, -1.0, 0.75, 1024.0, -3.5])
+                hi = lo
+                for _ in range(rng.choice([1, 2, 40, 180])):
+                    hi = math.nextafter(hi, math.inf)
+                p["lb"], p["ub"], p["x0"] = list(p["lb"]), list(p["ub"]), list(p["x0"])
+                p["lb"][i], p["ub"][i] = lo, hi
+                p["x0"][i] = rng.choice([lo, hi, lo])
+                ps.append(p)
         b1 = runcheck.run_batch(ctx, bdir, A, ps, [mon_settings], "first process", blame_crash=False)
         b2 = runcheck.run_batch(ctx, bdir, A, ps, [], "second process", replay=False, blame_crash=False)
         runcheck.compare_pairs(ctx, [r for _, r, _ in b1], [r for _, r, _ in b2], same, "two processes", {"cause": "two equal runs differ"})
